@@ -11,13 +11,30 @@ from .tableops import FuncView
 
 
 class Ctx:
-    def __init__(self, repo: str, tier: str = "quick"):
+    def __init__(self, repo: str, tier: str = "quick", overrides=None):
         self.repo = repo
         self.tier = tier
-        self.prog = Program(repo)
+        self.prog = Program(repo, overrides)
+        self._check_tables_declared()
         self.interp = Interp(self.prog)
         self.interp.analyse_all()
         self._views: Dict[str, FuncView] = {}
+
+    def _check_tables_declared(self):
+        """Frozen table declarations vs the source: every declared table is initialised in __init__, and every
+        dict / set attribute initialised in __init__ is declared (a new table must get a kind and enter the pairing rules)."""
+        from . import tables as T
+
+        for cls in T.CONTAINERS:
+            ci = self.prog.cls(cls)
+            init = ci.init_attrs()
+            decl = T.class_tables(cls)
+            missing = [a for a in decl if a not in init]
+            if missing:
+                raise AnalysisError(f"{cls}: declared tables {missing} are not initialised in __init__ (tables.py is out of date)")
+            extra = [a for a, v in init.items() if a not in decl and (isinstance(v, (ast.Dict, ast.Set)) or (isinstance(v, ast.Call) and isinstance(v.func, ast.Name) and v.func.id in ("dict", "set", "list", "defaultdict")))]
+            if extra:
+                raise AnalysisError(f"{cls}: __init__ creates undeclared tables {extra}: give them a kind in hgxverif/tables.py so that the pairing rules cover them")
 
     def view(self, dotted_or_fi) -> FuncView:
         fi = dotted_or_fi if isinstance(dotted_or_fi, FunctionInfo) else self.prog.func(dotted_or_fi)
